@@ -377,6 +377,9 @@ def rule_pure(ctx: Ctx) -> None:
 
 
 def run(ctx: Ctx) -> None:
+    from rules import frames as FR
+
+    ctx.run(FR.rule_accessors)  # the ego-distance accessor the predicate relies on (R-FRAME)
     ctx.run(rule_predicate)
     ctx.run(rule_lookup)
     ctx.run(rule_filter_idiom)
